@@ -31,7 +31,7 @@ theorem pv_steps : ∀ (S : List Step) (fs : FS), (fs.steps S).pv = applyEffs (e
 def AllocEff : PEff → Prop
   | .setLen _ => True
   | .hdr _ => True
-  | .bitmap => True
+  | .bitmap _ => True
   | .stats => True
   | _ => False
 
@@ -54,22 +54,67 @@ theorem st_congr : ∀ (E : List PEff) (p p' : PImg), ST p = ST p' → ST (apply
     obtain ⟨hs, ht⟩ := h
     cases e <;> simp [ST, applyEff, hs, ht]
 
-structure PBlk (p0 : PImg) (live : Nat) (allowed covered : List Nat) (nd : Nat) (ps : PS) (acts : List Action)
+/-- no action of the list has an error path of its own (the error is just propagated) -/
+def Plain (acts : List Action) : Prop := ∀ a ∈ acts, ∀ s f, a = Action.io s f → f = []
+
+theorem Plain.append {a b : List Action} (ha : Plain a) (hb : Plain b) : Plain (a ++ b) := by
+  intro x hx
+  rcases List.mem_append.mp hx with h | h
+  · exact ha x h
+  · exact hb x h
+
+theorem plain_flush (pm : Meta) (bm : Nat) : Plain (flushA pm bm) := by
+  intro a ha s f he
+  simp [flushA] at ha
+  rcases ha with rfl | rfl | rfl <;> (cases he; rfl)
+
+theorem plain_of_mem_or_ioA (l : List Action) (h : ∀ a ∈ l, (∃ u, a = memA u) ∨ (∃ s, a = ioA s)) : Plain l := by
+  intro a ha s f he
+  rcases h a ha with ⟨u, rfl⟩ | ⟨s', rfl⟩
+  · cases he
+  · cases he; rfl
+
+theorem plain_ensure (ps : PS) (pid : Nat) : Plain (ensureA ps pid).1 := by
+  unfold ensureA
+  apply Plain.append _ (plain_flush _ _)
+  apply plain_of_mem_or_ioA
+  intro a ha
+  by_cases hg : ps.pm.nextPage ≤ pid <;> by_cases he : ps.len < pid + 1 <;> simp [hg, he] at ha
+  all_goals (first | (rcases ha with rfl | rfl | rfl) | (rcases ha with rfl | rfl) | subst ha)
+  all_goals (first | exact Or.inl ⟨_, rfl⟩ | exact Or.inr ⟨_, rfl⟩)
+
+theorem plain_alloc (ps : PS) : Plain (allocA ps).1 := by
+  unfold allocA
+  intro a ha
+  rcases List.mem_cons.mp ha with rfl | ha
+  · intro s f he; cases he
+  · exact plain_ensure _ _ a ha
+
+theorem onFailAt_plain : ∀ (acts : List Action), Plain acts → ∀ k, onFailAt acts k = []
+  | [], _, _ => rfl
+  | .io s f :: rest, h, 0 => h (.io s f) (by simp) s f rfl
+  | .io s f :: rest, h, k + 1 => onFailAt_plain rest (fun a ha => h a (by simp [ha])) k
+  | .fail e :: rest, _, _ => rfl
+  | .mem u :: rest, h, k => onFailAt_plain rest (fun a ha => h a (by simp [ha])) k
+
+structure PBlk (p0 : PImg) (live : Nat) (allowed covered : List Nat) (lo nd : Nat) (ps : PS) (acts : List Action)
     (effs : List PEff) (nd' : Nat) (ps' : PS) : Prop where
   nofail : failOf acts = none
+  plain : Plain acts
   pager : PagerActs acts
   setpm : OnlySetPm (memUpds acts)
   lastpm : lastPm (memUpds acts) ps.pm = ps'.pm
+  lastbm : lastBm (memUpds acts) ps.bm = ps'.bm
   sk : SameKey p0.hdr ps'.pm
-  np : ps'.pm.nextPage = nd'
+  np : min ps'.bm ps'.pm.nextPage = nd'
   mono : nd ≤ nd'
-  safe : ∀ fs : FS, AllImgsL live fs (CG p0 live allowed covered nd) →
-    SafeAlong (fun fs => AllImgsL live fs (fun p => ∃ n, CG p0 live allowed covered n p)) fs (ioSteps acts)
-  post : ∀ fs : FS, AllImgsL live fs (CG p0 live allowed covered nd) →
-    AllImgsL live (fs.steps (ioSteps acts)) (CG p0 live allowed covered nd')
+  safe : ∀ fs : FS, AllImgsL live fs (CG p0 live allowed covered lo nd) →
+    SafeAlong (fun fs => AllImgsL live fs (fun p => ∃ n, CG p0 live allowed covered lo n p)) fs (ioSteps acts)
+  post : ∀ fs : FS, AllImgsL live fs (CG p0 live allowed covered lo nd) →
+    AllImgsL live (fs.steps (ioSteps acts)) (CG p0 live allowed covered lo nd')
   vol : ∀ fs : FS, ST (fs.steps (ioSteps acts)).pv = ST (applyEffs effs fs.pv)
 
-variable {p0 : PImg} {live : Nat} {allowed covered : List Nat}
+variable {p0 : PImg} {live lo : Nat} {allowed covered : List Nat}
 
 theorem OnlySetPm.append {a b : List MemUpd} (ha : OnlySetPm a) (hb : OnlySetPm b) : OnlySetPm (a ++ b) := by
   intro u hu
@@ -78,12 +123,14 @@ theorem OnlySetPm.append {a b : List MemUpd} (ha : OnlySetPm a) (hb : OnlySetPm 
   · exact hb u h
 
 theorem PBlk.append {n1 n2 n3 : Nat} {s1 s2 s3 : PS} {a b : List Action} {e1 e2 : List PEff}
-    (ha : PBlk p0 live allowed covered n1 s1 a e1 n2 s2) (hb : PBlk p0 live allowed covered n2 s2 b e2 n3 s3) :
-    PBlk p0 live allowed covered n1 s1 (a ++ b) (e1 ++ e2) n3 s3 where
+    (ha : PBlk p0 live allowed covered lo n1 s1 a e1 n2 s2) (hb : PBlk p0 live allowed covered lo n2 s2 b e2 n3 s3) :
+    PBlk p0 live allowed covered lo n1 s1 (a ++ b) (e1 ++ e2) n3 s3 where
   nofail := by rw [failOf_append, ha.nofail]; simpa using hb.nofail
+  plain := ha.plain.append hb.plain
   pager := ha.pager.append hb.pager
   setpm := by rw [memUpds_append_noFail _ _ ha.nofail]; exact ha.setpm.append hb.setpm
   lastpm := by rw [memUpds_append_noFail _ _ ha.nofail, lastPm_append, ha.lastpm, hb.lastpm]
+  lastbm := by rw [memUpds_append_noFail _ _ ha.nofail, lastBm_append, ha.lastbm, hb.lastbm]
   sk := hb.sk
   np := hb.np
   mono := Nat.le_trans ha.mono hb.mono
@@ -100,12 +147,14 @@ theorem PBlk.append {n1 n2 n3 : Nat} {s1 s2 s3 : PS} {a b : List Action} {e1 e2 
     rw [ioSteps_append_noFail _ _ ha.nofail, steps_append, hb.vol, applyEffs_append]
     exact st_congr e2 _ _ (ha.vol fs)
 
-theorem PBlk.nil {nd : Nat} {ps : PS} (hsk : SameKey p0.hdr ps.pm) (hnp : ps.pm.nextPage = nd) :
-    PBlk p0 live allowed covered nd ps [] [] nd ps where
+theorem PBlk.nil {nd : Nat} {ps : PS} (hsk : SameKey p0.hdr ps.pm) (hnp : min ps.bm ps.pm.nextPage = nd) :
+    PBlk p0 live allowed covered lo nd ps [] [] nd ps where
   nofail := rfl
+  plain := by intro a ha; simp at ha
   pager := by intro a ha; simp at ha
   setpm := by intro u hu; simp [memUpds] at hu
   lastpm := rfl
+  lastbm := rfl
   sk := hsk
   np := hnp
   mono := Nat.le_refl _
@@ -116,9 +165,9 @@ theorem PBlk.nil {nd : Nat} {ps : PS} (hsk : SameKey p0.hdr ps.pm) (hnp : ps.pm.
   vol := by intro fs; rfl
 
 /-- a block of steps of the class, with no memory update and no allocation -/
-theorem PBlk.steps {nd : Nat} {ps : PS} (hsk : SameKey p0.hdr ps.pm) (hnp : ps.pm.nextPage = nd)
-    (S : List Step) (hS : ∀ s ∈ S, CStepOK p0 live allowed covered nd s) :
-    PBlk p0 live allowed covered nd ps (S.map ioA) (effsOf S) nd ps := by
+theorem PBlk.steps {nd : Nat} {ps : PS} (hsk : SameKey p0.hdr ps.pm) (hnp : min ps.bm ps.pm.nextPage = nd)
+    (S : List Step) (hS : ∀ s ∈ S, CStepOK p0 live allowed covered lo nd s) :
+    PBlk p0 live allowed covered lo nd ps (S.map ioA) (effsOf S) nd ps := by
   have hio : ioSteps (S.map ioA) = S := by
     induction S with
     | nil => rfl
@@ -133,8 +182,11 @@ theorem PBlk.steps {nd : Nat} {ps : PS} (hsk : SameKey p0.hdr ps.pm) (hnp : ps.p
     induction S with
     | nil => rfl
     | cons s S ih => simp [failOf, ih]
-  refine { nofail := hnf, pager := ?_, setpm := by rw [hmu]; intro u hu; simp at hu, lastpm := by rw [hmu]; rfl,
+  refine { nofail := hnf, plain := ?_, pager := ?_, setpm := by rw [hmu]; intro u hu; simp at hu, lastpm := by rw [hmu]; rfl, lastbm := by rw [hmu]; rfl,
            sk := hsk, np := hnp, mono := Nat.le_refl _, safe := ?_, post := ?_, vol := ?_ }
+  · intro a ha s f he
+    obtain ⟨s', _, rfl⟩ := List.mem_map.mp ha
+    cases he; rfl
   · intro a ha
     obtain ⟨s, hs, rfl⟩ := List.mem_map.mp ha
     exact cstep_pagerStep (hS s hs)
@@ -148,26 +200,53 @@ theorem PBlk.steps {nd : Nat} {ps : PS} (hsk : SameKey p0.hdr ps.pm) (hnp : ps.p
     rw [hio, pv_steps]
 
 theorem allocA_form (ps : PS) :
-    (allocA ps).2.2 = ps.pm.nextPage ∧ (allocA ps).2.1.pm = { ps.pm with nextPage := ps.pm.nextPage + 1 } ∧
+    (allocA ps).2.2 = min ps.bm ps.pm.nextPage ∧
+    min (allocA ps).2.1.bm (allocA ps).2.1.pm.nextPage = min ps.bm ps.pm.nextPage + 1 ∧
+    SameKey ps.pm (allocA ps).2.1.pm ∧ ps.bm ≤ (allocA ps).2.1.bm ∧
     failOf (allocA ps).1 = none ∧
     ∃ pre, (∀ s ∈ pre, ∃ n pid, s = Step.pg (.setLen n) pid) ∧
-      ioSteps (allocA ps).1 = pre ++ flushSteps { ps.pm with nextPage := ps.pm.nextPage + 1 } := by
-  have hn : ¬ ps.pm.nextPage + 1 ≤ ps.pm.nextPage := Nat.not_succ_le_self _
-  by_cases he : ps.len < ps.pm.nextPage + 1
-  · refine ⟨rfl, by simp [allocA, ensureA], by simp [allocA, ensureA, he, hn, failOf, flushA],
-      [.pg (.setLen (ps.pm.nextPage + 1)) (ps.pm.nextPage + 1)], by simp, ?_⟩
-    simp [allocA, ensureA, he, hn, ioSteps, flushA, flushSteps]
-  · refine ⟨rfl, by simp [allocA, ensureA], by simp [allocA, ensureA, he, hn, failOf, flushA], [], by simp, ?_⟩
-    simp [allocA, ensureA, he, hn, ioSteps, flushA, flushSteps]
+      ioSteps (allocA ps).1 = pre ++ flushSteps (allocA ps).2.1.pm (allocA ps).2.1.bm := by
+  by_cases hh : ps.bm < ps.pm.nextPage
+  · have hg : ¬ ps.pm.nextPage ≤ ps.bm := by omega
+    have hb : ¬ ps.bm < ps.bm := Nat.lt_irrefl _
+    by_cases he : ps.len < ps.bm + 1
+    · refine ⟨by simp [allocA, hh]; omega, by simp [allocA, ensureA, hh, hg, hb]; omega, by simp [allocA, ensureA, hh, hg]; exact SameKey.refl _,
+        by simp [allocA, ensureA, hh, hb], by simp [allocA, ensureA, hh, hg, he, failOf, flushA],
+        [.pg (.setLen (ps.bm + 1)) (ps.bm + 1)], by simp, ?_⟩
+      simp [allocA, ensureA, hh, hg, hb, he, ioSteps, flushA, flushSteps]
+    · refine ⟨by simp [allocA, hh]; omega, by simp [allocA, ensureA, hh, hg, hb]; omega, by simp [allocA, ensureA, hh, hg]; exact SameKey.refl _,
+        by simp [allocA, ensureA, hh, hb], by simp [allocA, ensureA, hh, hg, he, failOf, flushA], [], by simp, ?_⟩
+      simp [allocA, ensureA, hh, hg, hb, he, ioSteps, flushA, flushSteps]
+  · have hg : ¬ ps.pm.nextPage + 1 ≤ ps.pm.nextPage := Nat.not_succ_le_self _
+    have hsk : SameKey ps.pm { ps.pm with nextPage := ps.pm.nextPage + 1 } := ⟨rfl, rfl, rfl, rfl, by simp⟩
+    have hbm : ps.bm ≤ (if ps.pm.nextPage < ps.bm then ps.bm else ps.pm.nextPage + 1) := by split <;> omega
+    have hmin : min (if ps.pm.nextPage < ps.bm then ps.bm else ps.pm.nextPage + 1) (ps.pm.nextPage + 1) =
+        min ps.bm ps.pm.nextPage + 1 := by split <;> omega
+    by_cases he : ps.len < ps.pm.nextPage + 1
+    · refine ⟨by simp [allocA, hh]; omega, by simpa [allocA, ensureA, hh, hg] using hmin, by simpa [allocA, ensureA, hh, hg] using hsk,
+        by simpa [allocA, ensureA, hh, hg] using hbm, by simp [allocA, ensureA, hh, hg, he, failOf, flushA],
+        [.pg (.setLen (ps.pm.nextPage + 1)) (ps.pm.nextPage + 1)], by simp, ?_⟩
+      simp [allocA, ensureA, hh, hg, he, ioSteps, flushA, flushSteps]
+    · refine ⟨by simp [allocA, hh]; omega, by simpa [allocA, ensureA, hh, hg] using hmin, by simpa [allocA, ensureA, hh, hg] using hsk,
+        by simpa [allocA, ensureA, hh, hg] using hbm, by simp [allocA, ensureA, hh, hg, he, failOf, flushA], [], by simp, ?_⟩
+      simp [allocA, ensureA, hh, hg, he, ioSteps, flushA, flushSteps]
 
-/-- `Pager::allocate_page` inside a compaction: harmless at every step; afterwards the new frontier is durable -/
-theorem pblk_alloc {nd : Nat} (ps : PS) (hsk : SameKey p0.hdr ps.pm) (hnp : ps.pm.nextPage = nd) :
-    PBlk p0 live allowed covered nd ps (allocA ps).1 [] (nd + 1) (allocA ps).2.1 ∧ (allocA ps).2.2 = nd ∧
-    EndsFlushed (allocA ps).1 (allocA ps).2.1.pm := by
-  obtain ⟨hpid, hpm, hnf, pre, hpre, hio⟩ := allocA_form ps
-  have hsk' : SameKey p0.hdr { ps.pm with nextPage := ps.pm.nextPage + 1 } :=
-    hsk.trans ⟨rfl, rfl, rfl, rfl, by simp⟩
-  have hS : ∀ s ∈ ioSteps (allocA ps).1, CStepOK p0 live allowed covered nd s := by
+theorem steps_flushed_bm (fs : FS) (pre : List Step) (pm : Meta) (bm : Nat) :
+    (fs.steps (pre ++ flushSteps pm bm)).pd.bm = bm := by
+  rw [steps_append]
+  generalize fs.steps pre = g
+  simp [flushSteps, FS.steps, FS.step, FS.pv, applyEffs_append, applyEffs, applyEff]
+
+/-- `Pager::allocate_page` inside a compaction: harmless at every step; afterwards the new frontier is
+    durable.  The class may start below the in-memory frontier (after a failed allocation the
+    memory is ahead of the file). -/
+theorem pblk_alloc {nd : Nat} (ps : PS) (hsk : SameKey p0.hdr ps.pm) (hnp : nd ≤ min ps.bm ps.pm.nextPage) :
+    PBlk p0 live allowed covered lo nd ps (allocA ps).1 [] (min ps.bm ps.pm.nextPage + 1) (allocA ps).2.1 ∧
+    (allocA ps).2.2 = min ps.bm ps.pm.nextPage ∧
+    EndsFlushed (allocA ps).1 (allocA ps).2.1.pm (allocA ps).2.1.bm := by
+  obtain ⟨hpid, hmin, hsame, hbmle, hnf, pre, hpre, hio⟩ := allocA_form ps
+  have hsk' : SameKey p0.hdr (allocA ps).2.1.pm := hsk.trans hsame
+  have hS : ∀ s ∈ ioSteps (allocA ps).1, CStepOK p0 live allowed covered lo nd s := by
     rw [hio]
     intro s hs
     rcases List.mem_append.mp hs with h | h
@@ -175,24 +254,26 @@ theorem pblk_alloc {nd : Nat} (ps : PS) (hsk : SameKey p0.hdr ps.pm) (hnp : ps.p
       simp [CStepOK, CEff]
     · simp [flushSteps] at h
       rcases h with rfl | rfl | rfl
-      · exact ⟨hsk', by simp; omega⟩
-      · simp [CStepOK, CEff]
+      · exact ⟨hsk', by have := hsame.np; omega⟩
+      · show nd ≤ (allocA ps).2.1.bm
+        omega
       · simp [CStepOK]
   have hfl : ∀ fs : FS, (fs.steps (ioSteps (allocA ps).1)).pj = [] ∧
-      (fs.steps (ioSteps (allocA ps).1)).pd.hdr = { ps.pm with nextPage := ps.pm.nextPage + 1 } :=
-    fun fs => steps_flushed fs _ _ ⟨pre, hio⟩
-  refine ⟨{ nofail := hnf, pager := pagerActs_alloc ps, setpm := onlySetPm_alloc ps, lastpm := lastPm_alloc ps _,
-            sk := by rw [hpm]; exact hsk', np := by rw [hpm]; simp [hnp], mono := Nat.le_succ _,
-            safe := ?_, post := ?_, vol := ?_ }, by rw [hpid, hnp], ⟨pre, by rw [hpm]; exact hio⟩⟩
+      (fs.steps (ioSteps (allocA ps).1)).pd.hdr = (allocA ps).2.1.pm ∧
+      (fs.steps (ioSteps (allocA ps).1)).pd.bm = (allocA ps).2.1.bm :=
+    fun fs => steps_flushed fs _ _ _ ⟨pre, hio⟩
+  refine ⟨{ nofail := hnf, plain := plain_alloc ps, pager := pagerActs_alloc ps, setpm := onlySetPm_alloc ps, lastpm := lastPm_alloc ps _, lastbm := lastBm_alloc ps _,
+            sk := hsk', np := hmin, mono := by omega,
+            safe := ?_, post := ?_, vol := ?_ }, hpid, ⟨pre, hio⟩⟩
   · intro fs h
     exact safeAlong_mono (cstep_block _ fs h hS) (fun g hg => allImgsL_mono live g _ _ hg (fun p hp => ⟨_, hp⟩))
   · intro fs h
     have hlast := safeAlong_last (cstep_block _ fs h hS)
-    obtain ⟨hpj, hhdr⟩ := hfl fs
+    obtain ⟨hpj, hhdr, hbm⟩ := hfl fs
     intro p' hp'
     rw [hpj] at hp'
     rw [isImgL_nil _ _ _ hp']
-    exact (allImgsL_pd live _ _ hlast).raise (Nat.le_succ _) (by rw [hhdr]; simp [hnp])
+    exact (allImgsL_pd live _ _ hlast).raise (by omega) (by rw [hhdr]; omega) (by rw [hbm]; omega)
   · intro fs
     rw [pv_steps]
     apply st_allocEffs
@@ -214,29 +295,35 @@ theorem pblk_alloc {nd : Nat} (ps : PS) (hsk : SameKey p0.hdr ps.pm) (hnp : ps.p
     · simp [flushSteps, effsOf] at h
       rcases h with rfl | rfl <;> trivial
 
+theorem pblk_alloc_eq {nd : Nat} (ps : PS) (hsk : SameKey p0.hdr ps.pm) (hnp : min ps.bm ps.pm.nextPage = nd) :
+    PBlk p0 live allowed covered lo nd ps (allocA ps).1 [] (nd + 1) (allocA ps).2.1 ∧ (allocA ps).2.2 = nd ∧
+    EndsFlushed (allocA ps).1 (allocA ps).2.1.pm (allocA ps).2.1.bm := by
+  have := pblk_alloc (p0 := p0) (live := live) (lo := lo) (allowed := allowed) (covered := covered) (nd := nd) ps hsk (by omega)
+  rwa [hnp] at this
+
 /-- one page write of the class -/
-theorem pblk_write {nd : Nat} {ps : PS} (hsk : SameKey p0.hdr ps.pm) (hnp : ps.pm.nextPage = nd) (e : PEff) (pid : Nat)
-    (he : CEff p0 live allowed covered nd e) :
-    PBlk p0 live allowed covered nd ps [ioA (.pg e pid)] [e] nd ps := by
-  have := PBlk.steps (p0 := p0) (live := live) (allowed := allowed) (covered := covered) hsk hnp [Step.pg e pid]
+theorem pblk_write {nd : Nat} {ps : PS} (hsk : SameKey p0.hdr ps.pm) (hnp : min ps.bm ps.pm.nextPage = nd) (e : PEff) (pid : Nat)
+    (he : CEff p0 live allowed covered lo nd e) :
+    PBlk p0 live allowed covered lo nd ps [ioA (.pg e pid)] [e] nd ps := by
+  have := PBlk.steps (p0 := p0) (live := live) (lo := lo) (allowed := allowed) (covered := covered) hsk hnp [Step.pg e pid]
     (by intro s hs; simp at hs; subst hs; exact he)
   simpa [effsOf] using this
 
-theorem pblk_sync {nd : Nat} {ps : PS} (hsk : SameKey p0.hdr ps.pm) (hnp : ps.pm.nextPage = nd) :
-    PBlk p0 live allowed covered nd ps [ioA .ps] [] nd ps := by
-  have := PBlk.steps (p0 := p0) (live := live) (allowed := allowed) (covered := covered) hsk hnp [Step.ps]
+theorem pblk_sync {nd : Nat} {ps : PS} (hsk : SameKey p0.hdr ps.pm) (hnp : min ps.bm ps.pm.nextPage = nd) :
+    PBlk p0 live allowed covered lo nd ps [ioA .ps] [] nd ps := by
+  have := PBlk.steps (p0 := p0) (live := live) (lo := lo) (allowed := allowed) (covered := covered) hsk hnp [Step.ps]
     (by intro s hs; simp at hs; subst hs; trivial)
   simpa [effsOf] using this
 
 /-- the data pages of a persisted segment after the first one -/
-theorem pblk_segParts (key need : Nat) (edges : List Nat) (hlo : p0.hdr.nextPage ≤ key) :
-    ∀ (js : List Nat) (nd : Nat) (ps : PS), SameKey p0.hdr ps.pm → ps.pm.nextPage = nd → key < nd →
-      PBlk p0 live allowed covered nd ps (segPartsA key need edges ps js).1
+theorem pblk_segParts (key need : Nat) (edges : List Nat) (hlo : lo ≤ key) :
+    ∀ (js : List Nat) (nd : Nat) (ps : PS), SameKey p0.hdr ps.pm → min ps.bm ps.pm.nextPage = nd → key < nd →
+      PBlk p0 live allowed covered lo nd ps (segPartsA key need edges ps js).1
         (js.map (fun j => PEff.segPart key j need edges)) (nd + js.length) (segPartsA key need edges ps js).2
-  | [], nd, ps, hsk, hnp, _ => by simpa [segPartsA] using PBlk.nil (live := live) (allowed := allowed) (covered := covered) hsk hnp
+  | [], nd, ps, hsk, hnp, _ => by simpa [segPartsA] using PBlk.nil (live := live) (lo := lo) (allowed := allowed) (covered := covered) hsk hnp
   | j :: js, nd, ps, hsk, hnp, hk => by
-    obtain ⟨ba, hpid, _⟩ := pblk_alloc (p0 := p0) (live := live) (allowed := allowed) (covered := covered) ps hsk hnp
-    have bw := pblk_write (p0 := p0) (live := live) (allowed := allowed) (covered := covered) ba.sk ba.np
+    obtain ⟨ba, hpid, _⟩ := pblk_alloc_eq (p0 := p0) (live := live) (lo := lo) (allowed := allowed) (covered := covered) ps hsk hnp
+    have bw := pblk_write (p0 := p0) (live := live) (lo := lo) (allowed := allowed) (covered := covered) ba.sk ba.np
       (.segPart key j need edges) (allocA ps).2.2 ⟨hlo, by omega⟩
     have br := pblk_segParts key need edges hlo js (nd + 1) (allocA ps).2.1 ba.sk ba.np (by omega)
     have := (ba.append bw).append br
